@@ -88,10 +88,11 @@ class World:
         else:
             d = {k: v for k, v in t.__dict__.items() if not k.startswith('_')}
             d['spent'] = t.spent
-            prio = d.pop('prio', None)
-            if prio is not None and (isinstance(prio, bool) or not isinstance(prio, int)):
-                d['prio'] = prio
-                prio = None
+            # prio is a model field only when it is an int; any other value - None included - stays in the
+            # attribute dictionary, so that "present with value None" differs from "absent"
+            prio = None
+            if 'prio' in d and isinstance(d['prio'], int) and not isinstance(d['prio'], bool):
+                prio = d.pop('prio')
             est = t.estimate
             if est is not None and (isinstance(est, bool) or not isinstance(est, int)):
                 d['estimate'] = est
@@ -208,7 +209,7 @@ def do_call(W, call):
 
 # ---------- generation (state-aware) -------------------------------------------------------------
 NAMES = ['a', 'b', 'design', 'build', 'Test', '']
-ATTRS = ['prio', 'tag', 'resource', 'name', 'estimate', 'spent', 'milestone', 'flag', '_tmp']
+ATTRS = ['prio', 'tag', 'resource', 'name', 'estimate', 'spent', 'milestone', 'flag', '_tmp', 'owner', 'blocked_by']
 
 
 def gen_attrs(rng):
@@ -227,6 +228,9 @@ def gen_attrs(rng):
         kw['spent'] = rng.choice([0, 1, 2.5])
     if rng.random() < 0.08:
         kw['milestone'] = True
+    if rng.random() < 0.12:
+        # a custom attribute that is present with the value None
+        kw[rng.choice(['owner', 'blocked_by', 'tag', 'prio'])] = None
     return kw
 
 
@@ -239,6 +243,8 @@ def gen_attr_value(rng, name):
         return rng.random() < 0.5
     if name == '_tmp':
         return rng.randint(0, 9)
+    if name in ('tag', 'owner', 'blocked_by', 'fresh') and rng.random() < 0.35:
+        return None
     return rng.choice(NAMES + ['x', 'R1'])
 
 
@@ -367,7 +373,7 @@ class Gen:
         if len(kids) >= 2:
             a, b = rng.sample(kids, 2)
             return self.op(['move', t, a, b])
-        return self.op(['delattr', t, rng.choice(['tag', 'flag', 'prio'])])      # custom attributes only
+        return self.op(['delattr', t, rng.choice(['tag', 'flag', 'prio', 'owner', 'blocked_by'])])      # custom attributes only
 
     def gen_call(self):
         rng = self.rng
@@ -490,6 +496,10 @@ def run_case(case, rng=None):
     out['wa_src'] = W.wattrs(W.wbss[call[1]])
     out['wa_new'] = W.wattrs(c) if c is not None else []
     out['n_before'] = n_before
+    builtin = ('name', 'resource', 'start', 'end', 'milestone', 'min_start')
+    out['none_valued_custom'] = sum(1 for t in W.wbss[call[1]].tasks for k, v in t.__dict__.items()
+                                    if not k.startswith('_') and k not in builtin and v is None)
+    out['none_valued_wattr'] = sum(1 for k, v in W.wbss[call[1]].__dict__.items() if not k.startswith('_') and v is None)
     out['hist_raised'] = raised
     if c is not None:
         out['new_is_wbs'] = type(c) is WBS
